@@ -131,6 +131,22 @@ func checkCreateSuspicious(r *Run) {
 	}
 	r.Check(okv, "C19.suspicious", fname(fn), "a freeze always stores the new record", "NewLastValidatorHistory(arguments) is written and returned on every path",
 		"an existing record is kept or returned instead of the new one: a released validator is never frozen again, or a guilty verdict does not replace a missed-votes freeze (early release)", p.pos(fn.Pos()))
+	// ... and unchanged: no field of the freshly built record is overwritten before it is stored (the freeze time and height
+	// are the arguments' - a record that inherits them from an earlier episode is released early)
+	if mk != nil {
+		touched := ""
+		allInstrs(fn, func(ins ssa.Instruction) {
+			st, ok := ins.(*ssa.Store)
+			if !ok {
+				return
+			}
+			if pa := pathOf(st.Addr); pa.Root == ssa.Value(mk) && len(pa.Fields) > 0 {
+				touched = pa.FieldString() + " at " + p.ipos(st)
+			}
+		})
+		r.Check(touched == "", "C19.suspicious", fname(fn), "the stored record is the one built from the arguments, unmodified", "no field of NewLastValidatorHistory(arguments) is written before the store",
+			"a field of the new record ("+touched+") is overwritten before it is stored: freeze time / height / status no longer come from this freeze (a record carrying an earlier episode's freeze time satisfies the release delay at once)", touched)
+	}
 	u := p.MustFn("(*data/evidence.EvidenceStore).UpdateSuspiciousValidator")
 	set := firstCallIn(u, "(*data/evidence.EvidenceStore).Set")
 	okU := set != nil
